@@ -7,7 +7,7 @@ import propbase
 
 ID = "C07"
 MODULE = "HttpcoreModel.Props.C07"
-THEOREMS = [f"Httpcore.C07.{n}" for n in ("pass_complete", "no_overtaking", "served_when_possible", "assignAll_complete",
+THEOREMS = [f"Httpcore.C07.{n}" for n in ("every_queue_change_triggers_pass", "queue_change_sites_found", "pass_complete", "no_overtaking", "served_when_possible", "assignAll_complete",
                                            "assignOne_unassigned", "assignOne_stuck")]
 TRUSTED = [
     "Lean 4.33 kernel; axioms per theorem under coverage.theorems",
